@@ -32,28 +32,28 @@ type FuncInfo struct {
 }
 
 type World struct {
-	Fset      *token.FileSet
-	Pkgs      map[string]*packages.Package
-	Funcs     map[string]*FuncInfo // by key
-	ByObj     map[*types.Func]*FuncInfo
-	ByLit     map[*ast.FuncLit]*FuncInfo
-	Specs     map[string]*FuncSpec // by key (repo + deps)
-	SFuncs    map[string]*SpecFunc
-	Lemmas    map[string]*Lemma
-	Ghosts    map[string]*GhostField // "pkg.Type.name"
-	TypeSpec  map[string]*TypeSpec
-	Axioms    []*Clause
-	Files     []*SpecFile
-	mods      map[string]*modSet
-	PureGlobs []string
-	RepoDir   string
-	allPkgs   []*types.Package
-	direct    map[string]*directSummary
-	nonnil    map[string]bool
-	guards    map[string]string
-	atomics   map[string]string
+	Fset        *token.FileSet
+	Pkgs        map[string]*packages.Package
+	Funcs       map[string]*FuncInfo // by key
+	ByObj       map[*types.Func]*FuncInfo
+	ByLit       map[*ast.FuncLit]*FuncInfo
+	Specs       map[string]*FuncSpec // by key (repo + deps)
+	SFuncs      map[string]*SpecFunc
+	Lemmas      map[string]*Lemma
+	Ghosts      map[string]*GhostField // "pkg.Type.name"
+	TypeSpec    map[string]*TypeSpec
+	Axioms      []*Clause
+	Files       []*SpecFile
+	mods        map[string]*modSet
+	PureGlobs   []string
+	RepoDir     string
+	allPkgs     []*types.Package
+	direct      map[string]*directSummary
+	nonnil      map[string]bool
+	guards      map[string]string
+	atomics     map[string]string
 	freshLocals map[types.Object]int
-	Errors    []string
+	Errors      []string
 }
 
 func shortPkg(path string) string {
@@ -311,8 +311,9 @@ func funcKeyOf(f *types.Func) string {
 func (w *World) pos(p token.Pos) token.Position { return w.Fset.Position(p) }
 
 // nonNilField: the contract files declare the field (heap key F:pkg.Type.field) as never nil:
-//   type T
-//     field f nonnil
+//
+//	type T
+//	  field f nonnil
 func (w *World) nonNilField(key string) bool {
 	if w.nonnil == nil {
 		w.nonnil = map[string]bool{}
@@ -336,8 +337,9 @@ func (w *World) nonNilField(key string) bool {
 }
 
 // guardOf: lock field key guarding the given field heap key ("" if none):
-//   type T
-//     field f guarded_by mu
+//
+//	type T
+//	  field f guarded_by mu
 func (w *World) guardOf(key string) string {
 	if w.guards == nil {
 		w.guards = map[string]string{}
